@@ -102,8 +102,8 @@ Lemma allele_arr_len want : forall S arr,
   allele_arr false want S = Ok arr -> (length want <= length S)%nat.
 Proof.
   induction want as [|a ws IH]; cbn; intros S arr H; [lia|].
-  destruct S as [|gv S']; [discriminate|].
-  destruct (allele_index false a (gv_alleles gv)); [|discriminate].
+  destruct S as [|gv S']; [discriminate|]. cbn in H. unfold allele_index in H.
+  destruct (index_of a (gv_alleles gv)); [|discriminate].
   destruct (allele_arr false ws S') as [r|] eqn:E; cbn in H; [|discriminate].
   specialize (IH S' r E). cbn. lia.
 Qed.
@@ -146,9 +146,10 @@ Proof.
   rewrite !map_map in P. cbn in P.
   change (fun x : key => fst x) with (@fst Z Z) in P.
   change (fun x : key => snd x) with (@snd Z Z) in P.
+  unfold key in *.
   destruct (allele_arr false (map snd (keys_of H)) (map snd (lookup (map fst (keys_of H)) (g_vars G)))) as [arr|k].
-  - destruct P as [jis [P1 [P2 P3]]]. split; [reflexivity|]. exists jis. auto.
-  - destruct P as [P1 P2]. split; [exact P1|]. intros Hall. apply P2.
+  - cbv beta iota in P |- *. destruct P as [jis [P1 [P2 P3]]]. split; [reflexivity|]. exists jis. auto.
+  - cbv beta iota in P |- *. destruct P as [P1 P2]. split; [exact P1|]. intros Hall. apply P2.
     intros v Hv. apply in_map_iff in Hv. destruct Hv as [k' [<- Hk']]. cbn. apply Hall. exact Hk'.
 Qed.
 
@@ -383,6 +384,6 @@ Proof.
     specialize (Hs _ Hin). cbn in Hs. unfold holds_single1 in Hs. destruct o as [col|k].
     + apply andb_true_iff in Hs. destruct Hs as [H1 H2]. apply col_eqb_spec in H2. auto.
     + apply negb_true_iff in Hs. unfold hap_okb in Hs. apply forallb_false_ex in Hs.
-      destruct Hs as [v [Hv Hc]]. exists v. split; [exact Hv|]. destruct (var_col G v); [discriminate|reflexivity].
+      destruct Hs as [v [Hv Hc]]. exists v. split; [exact Hv|]. destruct (var_col (a_G c) v); [discriminate|reflexivity].
   - apply holds_set_sound in Hset. exact Hset.
 Qed.
